@@ -2,20 +2,111 @@
 
 package internal
 
+import (
+	"context"
+	"reflect"
+	"strings"
+	"sync"
+	"unsafe"
+)
+
 // VerifAliveWatchers returns, for a TLS configuration pool, the number of file watchers that are registered and whose
-// context has not been cancelled, per watched file id.
+// context has not been cancelled, per watched file id - or nil when the pool's private structure is not recognised (no
+// private type, field or method is named at compile time, so a refactoring cannot stop the harness from building).
 func VerifAliveWatchers(p TLSConfigPool) map[string]int {
-	out := map[string]int{}
-	tp, ok := p.(*tlsConfigPool)
-	if !ok || tp.caWatcher == nil {
-		return out
+	pool, ok := verifStruct(reflect.ValueOf(p))
+	if !ok {
+		return nil
 	}
-	tp.caWatcher.mu.Lock()
-	defer tp.caWatcher.mu.Unlock()
-	for id, w := range tp.caWatcher.watchers {
-		if w.ctx.Err() == nil {
-			out[id]++
+	for i := 0; i < pool.NumField(); i++ {
+		w, ok := verifStruct(verifReadable(pool.Field(i)))
+		if !ok {
+			continue
+		}
+		// the watcher registry: a struct holding a map from string to something that carries a context
+		for j := 0; j < w.NumField(); j++ {
+			m := w.Field(j)
+			if m.Kind() != reflect.Map || m.Type().Key().Kind() != reflect.String {
+				continue
+			}
+			unlock := verifLock(w)
+			out := map[string]int{}
+			recognised := true
+			iter := verifReadable(m).MapRange()
+			for iter.Next() {
+				ctx, ok := verifContextIn(iter.Value())
+				if !ok {
+					recognised = false
+					break
+				}
+				if ctx.Err() == nil {
+					out[iter.Key().String()]++
+				}
+			}
+			unlock()
+			if recognised {
+				return out
+			}
 		}
 	}
-	return out
+	_ = strings.ToLower
+	return nil
+}
+
+func verifReadable(v reflect.Value) reflect.Value {
+	if !v.IsValid() || !v.CanAddr() {
+		return v
+	}
+	return reflect.NewAt(v.Type(), unsafe.Pointer(v.UnsafeAddr())).Elem()
+}
+
+func verifStruct(v reflect.Value) (reflect.Value, bool) {
+	for v.IsValid() && (v.Kind() == reflect.Ptr || v.Kind() == reflect.Interface) {
+		if v.IsNil() {
+			return reflect.Value{}, false
+		}
+		v = v.Elem()
+	}
+	return v, v.IsValid() && v.Kind() == reflect.Struct
+}
+
+func verifLock(st reflect.Value) func() {
+	for i := 0; i < st.NumField(); i++ {
+		f := verifReadable(st.Field(i))
+		if !f.CanAddr() {
+			continue
+		}
+		switch m := f.Addr().Interface().(type) {
+		case *sync.Mutex:
+			m.Lock()
+			return m.Unlock
+		case *sync.RWMutex:
+			m.RLock()
+			return m.RUnlock
+		}
+	}
+	return func() {}
+}
+
+func verifContextIn(v reflect.Value) (context.Context, bool) {
+	st, ok := verifStruct(v)
+	if !ok {
+		return nil, false
+	}
+	ctxType := reflect.TypeOf((*context.Context)(nil)).Elem()
+	for i := 0; i < st.NumField(); i++ {
+		f := verifReadable(st.Field(i))
+		if f.Type().Implements(ctxType) || f.Type() == ctxType {
+			if f.Kind() == reflect.Interface && f.IsNil() {
+				return nil, false
+			}
+			if !f.CanInterface() {
+				return nil, false
+			}
+			if c, ok := f.Interface().(context.Context); ok {
+				return c, true
+			}
+		}
+	}
+	return nil, false
 }
